@@ -275,6 +275,10 @@ pub struct ResizeOp {
     pub use_alpha: bool,
     /// pixel type the *destination* claims through the dynamic API (type-mismatch errors)
     pub dst_pt: Option<Pt>,
+    /// fault F7: the source is ONE image shared by the clients of the run (every client
+    /// whose operation carries this flag reads the same backing store concurrently)
+    #[serde(default)]
+    pub shared_src: bool,
 }
 
 #[derive(Clone, Debug, PartialEq, Serialize, Deserialize)]
